@@ -137,8 +137,8 @@ def spelling_routes(F, fid, opaque):
 def empty_word_outcome(F):
     """(ok, description): string_pool::intern answers the empty word with the process-wide empty String and creates nothing for it;
     every other path is taken for non-empty words only."""
-    fid = 'ipr::util::string_pool::intern(std::basic_string_view<char8_t, std::char_traits<char8_t>>)'
-    f = F.need_fn(fid)
+    f = F.intern_fn()
+    fid = f['id']
     S = Sym(F, opaque=lambda x: F.fn.get(x) is None or F.fn[x]['name'] in ('word_if_known', 'make_string'), max_depth=40)
     try:
         outs = S.run(fid)
